@@ -12,6 +12,7 @@ use std::{
 use serde_json::{json, Value};
 
 mod evalcmd;
+mod imports;
 mod util;
 
 type Handler = fn(&Value) -> Value;
@@ -74,6 +75,7 @@ fn main() {
 	let sub = args.get(1).map(String::as_str).unwrap_or("");
 	match sub {
 		"eval" => run_lines(evalcmd::handle),
+		"imports" => run_lines(imports::handle),
 		"version" => println!("jrharness 1"),
 		_ => {
 			eprintln!("usage: jrharness <eval|...>");
